@@ -76,6 +76,7 @@ pub fn input_len(inst: &Inst) -> usize {
         "multihot" => len + bits_of(inst.weight as u128),
         "l1" => bits_of(inst.max.0) * (len + 1),
         "prio2" => len,
+        "cube" => 2,
         _ => 0,
     }
 }
@@ -143,6 +144,7 @@ pub fn output_valid(inst: &Inst, sum: &[u128], _ap: &ApSpec) -> bool {
         "multihot" => sum.len() == len && sum.iter().all(|x| *x <= 1) && sum.iter().sum::<u128>() <= inst.weight as u128,
         "l1" => sum.len() == len && sum.iter().all(|x| *x <= max) && sum.iter().try_fold(0u128, |a, b| a.checked_add(*b)).map(|s| s <= max).unwrap_or(false),
         "prio2" => sum.len() == len && sum.iter().all(|x| *x <= 1),
+        "cube" => sum.len() == 2 && (2..5).contains(&sum[0]) && sum[1] == sum[0] * sum[0] * sum[0],
         "poplar1" => sum.iter().all(|x| *x <= 1) && sum.iter().sum::<u128>() <= 1,
         _ => false,
     }
@@ -170,6 +172,10 @@ pub fn gen_meas(inst: &Inst, rng: &mut Rng) -> Vec<N> {
     let len = inst.len as usize;
     match inst.class.as_str() {
         "count" => vec![N(rng.below(2) as u128)],
+        "cube" => {
+            let x = 2 + rng.below(3) as u128;
+            vec![N(x), N(x * x * x)]
+        }
         "sum" | "avg" => vec![N(edge(rng, max))],
         "sumvec" | "sumvec64" => (0..len).map(|_| N(edge(rng, max))).collect(),
         "hist" => {
@@ -243,8 +249,18 @@ pub fn encode_raw(inst: &Inst, meas: &[N]) -> Option<Vec<N>> {
             v
         }
         "prio2" => meas.to_vec(),
+        "cube" => meas.to_vec(),
         _ => return None,
     })
+}
+
+fn mulmod3(x: u128, p: u128) -> u128 {
+    // x^3 mod p for small x or x = p - 1
+    if x == p - 1 {
+        p - 1
+    } else {
+        (x * x * x) % p
+    }
 }
 
 /// Draw a raw encoded vector that is NOT a valid encoding (Byzantine client). Returns the raw
@@ -267,6 +283,21 @@ pub fn gen_invalid_raw(inst: &Inst, rng: &mut Rng) -> (Vec<N>, &'static str) {
     // class-specific near-misses that satisfy the affine checks only
     let special = rng.below(3) == 0;
     match cls {
+        "cube" => {
+            // near misses: the right x with y off by a little; x just outside the range with y = x^3; anything
+            let x = 2 + rng.below(3) as u128;
+            return match rng.below(4) {
+                0 | 1 => {
+                    let d = *rng.pick(&[1u128, 2, p - 1]);
+                    (vec![N(x), N((x * x * x + d) % p)], "cube_y_off")
+                }
+                2 => {
+                    let x = *rng.pick(&[0u128, 1, 5, 6, p - 1]);
+                    (vec![N(x), N(mulmod3(x, p))], "cube_x_out_of_range")
+                }
+                _ => (vec![N(bad(rng)), N(bad(rng))], "cube_random"),
+            };
+        }
         "hist" if special => match rng.below(3) {
             0 => {
                 raw.iter_mut().for_each(|x| *x = N(0));
